@@ -131,7 +131,8 @@ namespace cs
                 switch (r.below(10))
                 {
                 case 0:
-                    p.add("clone", {(long long)r.below(100), profile == "C20J" ? (long long)r.below(30) : 0});
+                    p.add("clone", {(long long)r.below(100), profile == "C20J" ? (long long)r.below(30) : 0,
+                                    (long long)r.below(2)});
                     break;
                 case 1:
                     p.add("mvj", {(long long)r.below(100)});
@@ -145,13 +146,15 @@ namespace cs
                     break;
                 case 5:
                     p.add("jv", {(long long)r.below(12), (long long)r.below(40),
-                                 r.pick<long long>({-40, -1, 0, 0, 16, 17, 64, 200})});
+                                 r.pick<long long>({-40, -1, 0, 0, 16, 17, 64, 200}),
+                                 r.chance(1, 2) ? (long long)r.range(1, 3) : 0});
                     break;
                 default:
                     p.add("mkj", {(long long)r.below(3), (long long)r.below(4), (long long)r.below(9),
                                   (long long)r.below(9), (long long)r.below(5),
-                                  r.pick<long long>({-1000, -13, -1, 0, 0, 0, 1, 12, 100}),
-                                  (profile == "C20J" || r.chance(1, 4)) ? (long long)r.below(30) : 0});
+                                  r.chance(1, 3) ? -(long long)r.range(1, 2000) : r.pick<long long>({0, 0, 0, 1, 12, 100}),
+                                  (profile == "C20J" || r.chance(1, 4)) ? (long long)r.below(30) : 0,
+                                  (long long)r.below(2)});
                 }
             }
         }
